@@ -32,7 +32,7 @@ RULE = ("cases: every (v,d) with d<=10 (d<=16 thorough) plus rejected/negative v
         "float neighbours, 7 points per decade and random x, k in {0,1,2,3,6}; str2array on rendered int/float/complex/bit arrays up "
         "to 3x6 with 3 element and 3 row separator styles, explicit dtypes, and a malformed stream (foreign characters, tabs, ragged "
         "rows, bad tokens, int64 overflow); positive reals over 30 decades / dB values in [-300,300] as scalars, lists, tuples, int "
-        "and float arrays; Q/gaus/rcos grids incl. the rcos break points. non-trivial = accepted call with a non-empty result, "
+        "and float arrays, one negative element of every magnitude 1e-15..1e15 (alone / mixed with positive ones); Q/gaus/rcos grids incl. the rcos break points. non-trivial = accepted call with a non-empty result, "
         "distinct by (kind, canonical input)")
 PARTIAL = [
     "decimal->binary64 rounding of str2array's float/complex tokens is Python's float()/complex(): the model returns the exact "
@@ -256,8 +256,19 @@ def gen_cases(rng, tier):
     for _ in range(40 if not thorough else 400):
         k = rng.choice([1, 2, 4])
         xs = [10 ** rng.uniform(-6, 6) for _ in range(k)]
-        xs[rng.randrange(k)] = -(10 ** rng.uniform(-12, 6))
+        xs[rng.randrange(k)] = -(10 ** rng.uniform(-15, 15))
         cases.append({"kind": "dbneg", "x": xs, "form": _arr_form(rng, xs)})
+    # directed: one negative value of every magnitude decade 1e-15 ... 1e15, alone and mixed with positive elements
+    for e in range(-15, 16):
+        neg = -float(f"1e{e}") * rng.choice([1.0, 1.0, rng.uniform(1, 9.99)])
+        cases.append({"kind": "dbneg", "x": [neg], "form": rng.choice(["scalar", "npfloat"])})
+        k = rng.choice([2, 3, 6])
+        xs = [10 ** rng.uniform(-15, 15) for _ in range(k)]
+        xs[rng.randrange(k)] = neg
+        cases.append({"kind": "dbneg", "x": xs, "form": ["list", "ndarray", "tuple"][(e + 15) % 3]})
+    for neg in [-5e-324, -2.0 ** -1000, -1e-300, -1e300, -1.0, -1e-12, -9.99e-13, -1.0000001e-12]:
+        cases.append({"kind": "dbneg", "x": [neg], "form": "scalar"})
+        cases.append({"kind": "dbneg", "x": [1.0, neg, 1e-3], "form": rng.choice(["list", "ndarray"])})
     for bad in ["a", None, "1.0", {"a": 1}]:
         cases.append({"kind": "dbtype", "x": bad})
     # --- Q, gaus -------------------------------------------------------------------------------------------
